@@ -74,6 +74,30 @@ def _shapes():
         t.extend(map(lambda y: y, [x, tags.i()]))
         return t.get_html_string()
 
+    def renamed(x):
+        # Tag.name is a public, assignable attribute: what is escaped follows the CURRENT name
+        t = Tag("script", x)
+        t.name = "pre"
+        return t.get_html_string()
+
+    def renamed_late(x):
+        t = Tag("style", "k")
+        t.name = "code"
+        t.append(x)
+        return str(t)
+
+    def saved(x):
+        import os
+        import tempfile
+        d = tempfile.mkdtemp(prefix="verif-c02-")
+        try:
+            p = tags.div(tags.p("k"), x).save_html(os.path.join(d, "f.html"))
+            with open(p, encoding="utf-8", newline="") as fh:
+                return fh.read()
+        finally:
+            import shutil
+            shutil.rmtree(d, ignore_errors=True)
+
     def ap_after_html(x):
         t = tags.div(H.HTML("<hr/>"))
         t.append(x)
@@ -111,6 +135,10 @@ def _shapes():
         "in_taglist_arg": lambda x: tags.div(TagList("q", TagList(x))).get_html_string(),
         "deep": lambda x: tags.div(tags.ul(tags.li(tags.a(tags.b(x), "t")))).get_html_string(),
         "append": ap, "append_many": ap2, "extend": ext, "insert0": ins, "insert_mid": ins_mid, "iadd": iadd,
+        # ordinary elements nested inside raw-text elements are still ordinary elements
+        "script_grandchild": lambda x: tags.script(tags.div(x), type="text/template").get_html_string(),
+        "style_grandchild": lambda x: tags.div(tags.style("a{}", tags.span("k", x))).get_html_string(),
+        "renamed_from_script": renamed, "renamed_then_append": renamed_late, "saved_file": saved,
         "append_after_html": ap_after_html, "extend_after_html": ext_after_html, "iadd_after_html": iadd_after_html,
         "insert_between_html": ins_after_html,
         "extend_iter": ext_iter, "extend_gen": ext_gen, "iadd_gen": iadd_gen, "list_extend_map": lext_map,
@@ -450,13 +478,10 @@ class C04(Prop):
                 gens.append({"kind": "html_child", "s": cps(p), "shape": nm})
                 gens.append({"kind": "repr_child", "s": cps(p), "shape": nm})
             for tagname in ("script", "style"):
-                for form in ("only", "first", "second", "third", "indented", "with_meta"):
+                for form in ("only", "first", "second", "third", "indented", "with_meta", "renamed", "saved"):
                     gens.append({"kind": "rawtext", "tag": tagname, "form": form, "s": cps(p)})
-            # (remove_class recomputes the class value from its tokens and stores a plain string even when nothing was
-            #  removed: the trusted marking of the old value is lost and the text is escaped again - over-escaping, the
-            #  safe direction; no listed property covers it, so it is not generated here.  DESIGN.md 9.3)
             for way in ("kw", "dict", "setitem", "update", "second_attr", "class_then_add", "class_then_add_pre", "style_then_add",
-                        "cons"):
+                        "class_then_remove", "cons"):
                 gens.append({"kind": "html_attr", "s": cps(p), "way": way})
             for way in ("doc", "textdoc", "as_html_tags"):
                 gens.append({"kind": "dep_head", "s": cps(p), "way": way})
@@ -477,7 +502,7 @@ class C04(Prop):
             gens.append({"kind": rnd.choice(["html_child", "repr_child"]), "s": cps(p), "shape": rnd.choice(names)})
             gens.append({"kind": "html_attr", "s": cps(p), "way": rnd.choice(["kw", "dict", "setitem", "update"])})
             gens.append({"kind": "rawtext", "tag": rnd.choice(["script", "style"]),
-                         "form": rnd.choice(["only", "first", "second", "third", "indented", "with_meta"]), "s": cps(p)})
+                         "form": rnd.choice(["only", "first", "second", "third", "indented", "with_meta", "renamed"]), "s": cps(p)})
         for _ in range(300 if tier == "quick" else 6000):
             k = rnd.randint(2, 12)
             e = self._rand_expr(rnd, k)
@@ -536,6 +561,21 @@ class C04(Prop):
                     return Tag(g["tag"], "a", H.HTML("b"), x, "c", _add_ws=False).get_html_string()
                 if form == "indented":
                     return H.tags.div(Tag(g["tag"], x)).get_html_string(2, "\r\n")
+                if form == "renamed":
+                    t = Tag("div", x)
+                    t.name = g["tag"]
+                    return t.get_html_string()
+                if form == "saved":
+                    import os
+                    import shutil
+                    import tempfile
+                    d = tempfile.mkdtemp(prefix="verif-c04-")
+                    try:
+                        p = H.tags.div(Tag(g["tag"], x)).save_html(os.path.join(d, "f.html"))
+                        with open(p, encoding="utf-8", newline="") as fh:
+                            return fh.read()
+                    finally:
+                        shutil.rmtree(d, ignore_errors=True)
                 return Tag(g["tag"], H.MetadataNode(), x, H.MetadataNode()).get_html_string()
             seg = segment(r, MARK, s)
             return seg_or_flag("C04", "text", [("raw", s)], seg, g)
